@@ -1,7 +1,7 @@
 """C15 — circuits contain no useless gates; pure data movement costs zero AND gates."""
 import json
 
-from . import c04, common, corpus, gen_datamove, gen_reqs
+from . import c04, common, corpus, gen_datamove, gen_prog, gen_reqs
 from .common import Failure
 
 PROP_MODULES = ["GarbleVerif.Props.C15"]
@@ -39,6 +39,21 @@ def scan(circ, dedup=True):
             problems.append(("and-duplicate", f"gates {seen[key]} and {n+i} are both And{key}"))
         seen.setdefault(key, n + i)
     return problems
+
+
+def related_checks():
+    """programs whose failing operations have related conditions (one implies, equals or absorbs another)"""
+    out = []
+    for t, w in [("u8", 8), ("u16", 16), ("u32", 32), ("u64", 64), ("i8", 8), ("i16", 16), ("i32", 32), ("i64", 64)]:
+        for k in (1, 2, w // 2, w - 1):
+            for op in ("/", "%"):
+                out.append(f"pub fn main(a: {t}, w: {t}) -> {t} {{\n    let q = a {op} (w >> {k}u8);\n    let r = a {op} w;\n    q ^ r\n}}")
+                out.append(f"pub fn main(a: {t}, w: {t}) -> {t} {{\n    let r = a {op} w;\n    let q = a {op} (w >> {k}u8);\n    q ^ r\n}}")
+        out.append(f"pub fn main(a: {t}, w: {t}) -> {t} {{\n    let q = a / w;\n    let r = a % w;\n    let s = w / w;\n    q ^ r ^ s\n}}")
+        out.append(f"pub fn main(a: {t}, w: {t}) -> {t} {{\n    let q = a + w;\n    let r = a + w;\n    let s = (a + w) + a;\n    q ^ r ^ s\n}}")
+        out.append(f"pub fn main(a: [{t}; 4], b: [{t}; 8], i: usize) -> {t} {{\n    let q = b[i];\n    let r = a[i];\n    let s = a[i >> 1u8];\n    q ^ r ^ s\n}}")
+        out.append(f"pub fn main(a: [{t}; 3], i: usize, c: bool) -> {t} {{\n    let q = if c {{ a[i] }} else {{ a[i] / a[0] }};\n    let r = a[i];\n    q ^ r\n}}")
+    return out
 
 
 def judge(case, impl, model):
@@ -85,7 +100,20 @@ def run(ctx):
     np_ = len(cases) - nb
     for _ in range(400 if quick else 6000):
         cases.append({"id": len(cases), "op": "compile", "src": gen_datamove.program(ctx.rng), "datamove": True})
-    impl, _, _ = ctx.run_impl(cases, timeout=3000)
+    # programs with MANY failing operations: every check feeds the panic record through push_panic_if / mux_panic, and a
+    # condition that an earlier one absorbs (x / (w >> 1) then x / w) must not leave gates behind either
+    ngen = 0
+    for src in related_checks():
+        for dedup in (True, False):
+            cases.append({"id": len(cases), "op": "compile", "src": src, "dedup": dedup, "origin": "related-checks"})
+            ngen += 1
+    for i in range(300 if quick else 5000):
+        import random
+        g = gen_prog.ProgGen(random.Random(ctx.rng.randrange(1 << 48)), max_depth=3,
+                             features=[None, {"core", "stress"}, {"core", "agg", "assign", "impure", "loops", "stress"}][i % 3])
+        cases.append({"id": len(cases), "op": "compile", "src": g.program()["src"], "dedup": i % 4 != 3, "origin": "generated"})
+        ngen += 1
+    impl = common.run_lines_guarded(common.GVH, cases, per_case_timeout=30.0)
     model, _, _ = ctx.run_model(cases[:nb], timeout=3000)
     distinct = set()
     nscanned = 0
@@ -103,13 +131,14 @@ def run(ctx):
         "evaluations": len(cases),
         "distinct_nontrivial": len(distinct),
         "rule": "circuits built by the real builder from random rule-directed request sequences (structurally identical to the "
-                "model's, for which reachability is proved), compiler output of the corpus (dedup on and off) and generated pure "
-                "data-movement programs; each circuit is scanned for gates that reach no output, AND gates with a constant or "
+                "model's, for which reachability is proved), compiler output of the corpus (dedup on and off), of programs whose "
+                "failing operations have related conditions (division by w and by w >> k, repeated checks), of generated programs "
+                "with many failing operations, and generated pure data-movement programs; each circuit is scanned for gates that reach no output, AND gates with a constant or "
                 "repeated operand, duplicate AND gates (dedup on), and data-movement programs must have 0 AND gates; "
                 "non-trivial = distinct circuit with more than the two constant gates",
         "traces_validated_against_impl": nb,
         "programs": len(cases) - nb,
-        "distribution": {"request_sequences": nb, "corpus_compilations": np_, "datamove_programs": len(cases) - nb - np_,
+        "distribution": {"request_sequences": nb, "corpus_compilations": np_, "datamove_programs": len(cases) - nb - np_ - ngen, "programs_with_failing_operations": ngen,
                          "circuits_scanned": nscanned, "gates_scanned": ngates},
         "samples": [cases[3], {k: v for k, v in cases[-1].items()}],
         "not_proved": ["C15_and_normal_Statement", "C15_and_unique_Statement", "C15_data_movement (needs the language-level model)"],
